@@ -110,6 +110,8 @@ impl Hist {
         if case.salt % 7 == 3 {
             drv.stall_secs = [11, 31, 61, 121, 301][(case.salt / 7 % 5) as usize];
         }
+        // one history in five revalidates its reads the way a caching client library would
+        drv.revalidate = case.salt % 5 == 4;
         // a third of the histories carry a set of protocol-irrelevant request headers
         if case.salt % 3 == 2 {
             drv.extra_headers = 1 + ((case.salt / 3) % (crate::driver::N_EXTRA_HEADER_SETS as u32 - 1)) as u8;
@@ -154,6 +156,25 @@ impl Hist {
             IdRef::SnapVersion(k) => cl(k).snap.map(|s| s.version).unwrap_or(Uuid::nil()),
             IdRef::Fresh(l) => crate::case::fresh_uuid(*l),
             IdRef::Literal(u) => *u,
+            IdRef::Near(k, back, mode) => {
+                let base = self.resolve(&IdRef::Ancestor(*k, *back));
+                let mut b = *base.as_bytes();
+                match mode % 4 {
+                    0 => b[15] ^= 0x01,
+                    1 => b[0] ^= 0x10,
+                    2 => {
+                        for x in b[10..].iter_mut() {
+                            *x ^= 0x5A;
+                        }
+                    }
+                    _ => {
+                        for x in b[..6].iter_mut() {
+                            *x ^= 0xA5;
+                        }
+                    }
+                }
+                Uuid::from_bytes(b)
+            }
         }
     }
 
@@ -233,7 +254,10 @@ impl Hist {
                 let done = self.drv.age_snapshot(c, age).map_err(|e| harness(e, "ageing the snapshot"))?;
                 if done {
                     if let Some(s) = &mut self.model.client_mut(c).snap {
-                        s.days = age;
+                        s.days = crate::case::observed_age_days(age);
+                    }
+                    if age < 0 {
+                        st.label("op:AgeSnapshot(stamped-in-the-future)");
                     }
                     if *days >= 60000 {
                         st.label("op:AgeSnapshot(calendar-landmark)");
